@@ -133,9 +133,23 @@ theorem bytes_enc (bs r : Bytes) (hn : bs.length < 2 ^ 64) : bytes (encBytes bs 
 
 /-! ## datatype of what the encoder writes -/
 
+theorem typeOf_plain (cur : Bytes) (b : UInt8) (h : ¬ (0x38 ≤ b.toNat ∧ b.toNat ≤ 0x3b)) :
+    typeOf cur b = .ok (typeOfPlain b.toNat) := by
+  simp only [typeOf]; rw [if_neg h]
+
+/-- `type_of` can only fail with end-of-input (the look-ahead of `0x38..=0x3b`) -/
+theorem typeOf_error (cur : Bytes) (b : UInt8) (e : Err) (h : typeOf cur b = .error e) : e = .eoi := by
+  simp only [typeOf] at h
+  split at h
+  · split at h
+    · cases h; rfl
+    · cases h
+  · cases h
+
 /-- solve `typeOf cur b = .ok t` when the bounds on `b.toNat` in the context decide every test -/
 macro "type_of_ifs" : tactic =>
-  `(tactic| (simp only [typeOf]; repeat (first | rw [if_pos (by omega)] | rw [if_neg (by omega)])))
+  `(tactic| (rw [typeOf_plain _ _ (by omega)]; unfold typeOfPlain
+             repeat (first | rw [if_pos (by omega)] | rw [if_neg (by omega)])))
 
 theorem typeOf_array (cur : Bytes) (b : UInt8) (h1 : 0x80 ≤ b.toNat) (h2 : b.toNat ≤ 0x9b) : typeOf cur b = .ok .array := by
   type_of_ifs
